@@ -5709,7 +5709,13 @@ func (t *Terminal) Loop() error {
 				} else {
 					t.tui.ShowCursor()
 				}
-				req(reqList, reqInfo, reqPrompt, reqHeader)
+				// The input section may live in a window of its own that has to
+				// come or go (see resizeWindows)
+				if (t.inputWindow != nil) != (!t.inputless && (t.inputBorderShape.Visible() || t.hasHeaderWindow() || t.hasHeaderLinesWindow())) {
+					req(reqFullRedraw)
+				} else {
+					req(reqList, reqInfo, reqPrompt, reqHeader)
+				}
 			case actTrackCurrent:
 				if t.track == trackDisabled {
 					t.track = trackCurrent
